@@ -1,6 +1,6 @@
 (* C05 — sequentially, the containers refine a plain map plus a set of locked keys. *)
 From Coq Require Import List Arith ZArith.
-From LK Require Import AList Model Inv StepInv PropLemmas Seq.
+From LK Require Import AList Model Inv StepInv PropLemmas Seq DropInv.
 Import ListNotations.
 
 (* The guard operations (insert, remove, value_mut, try_insert, value_or_insert(_with), value) return and
@@ -40,6 +40,25 @@ Theorem C05_try_fails_when_locked : forall c s a sh k e,
     (forall k', In k' (akeys (s_ents s')) <-> In k' (akeys (s_ents s))) /\
     (forall k' e', aget k' (s_ents s') = Some e' -> exists e0, aget k' (s_ents s) = Some e0 /\ e_owner e' = e_owner e0).
 Proof. intros c s a sh k e H. exact (seq_try_fails_when_locked c s a sh k e (reachable_inv c s H)). Qed.
+
+(* Dropping the only guard of a key (no waiter, no other call in flight on it), run to completion: the key
+   is unlocked, keeps its value (LRU: stamped with the current time), and a key without a value disappears. *)
+Theorem C05_drop_sole_guard : forall c s a g k e,
+  reachable c s -> aget a (s_ops s) = None -> aget g (s_guards s) = Some k -> guard_busy s g = false ->
+  aget k (s_ents s) = Some e -> e_queue e = [] -> e_repl e = 1 ->
+  seq_drop c s a g = ROk (dropped_state c s g k e) OUnit.
+Proof. intros c s a g k e H. exact (seq_drop_sole c s a g k e (reachable_inv c s H)). Qed.
+
+(* Locking an absent key with any variant and dropping the guard again leaves no trace at all
+   (only the guard-id counter of the model has advanced). *)
+Theorem C05_lock_drop_absent_restores : forall c s a a' sh k,
+  reachable c s -> aget a (s_ops s) = None -> aget a' (s_ops s) = None -> aget k (s_ents s) = None ->
+  exists s1, seq_lock c s a sh k = ROk s1 (OGuard (s_gid s) k None) /\
+             seq_drop c s1 a' (s_gid s) = ROk (with_gid s (S (s_gid s))) OUnit.
+Proof.
+  intros c s a a' sh k H.
+  exact (lock_drop_absent_roundtrip c s a a' sh k (reachable_inv c s H) (reachable_dinv c s H)).
+Qed.
 
 (* The counting and listing calls agree with that model: C04_keys_exact / C04_count_reports_keys. *)
 
